@@ -846,11 +846,14 @@ def chain_grid() -> list[dict]:
                         if bb == c:
                             continue
                         x = xs[(a + bb + c) % 2]
+                        if "trunc" in (inner, outer):
+                            # sign/Abs of a two-symbol difference, nested, costs sympy.simplify seconds per case
+                            x = ["sym", "N"] if inner == outer else ["sub", ["sym", "N"], ["int", 6]]
                         mid = ["mul", _chain(inner, x, a), ["int", bb]]
                         t = _chain(outer, mid, c)
                         flat = _chain(outer, ["mul", _unround(_chain(inner, x, a)) if inner != "mod" else x, ["int", bb]], c)
                         pick = None
-                        for n in (3, 5, 7, 4, 9, 11, 8):
+                        for n in (3, 5, 7, 4, 9, 11, 8, 1, 2):
                             b = {"N": n, "M": 1} if x[0] == "sub" else {"N": n}
                             try:
                                 if exact(t, b) != exact(flat, b):
